@@ -133,9 +133,26 @@ def check(h, tame, config=None, qualify=False):
     if set(clusters) != want_clusters:
         return f"clusters {sorted(set(clusters) ^ want_clusters)[:4]} do not match the nodes with children", None
     want = Counter()
+    import hugr.ops as O
+
+    def value_type(port):
+        """type of a value port from the operation's signature (independent of port_kind); None for other ports"""
+        op = h[port.node].op
+        if port.offset < 0:
+            return None
+        if isinstance(op, O.Call):
+            row = op.instantiation.output if port.direction.name == "OUTGOING" else op.instantiation.input
+        elif isinstance(op, O.DataflowOp):
+            sig = op.outer_signature()
+            row = sig.output if port.direction.name == "OUTGOING" else sig.input
+        else:
+            return None
+        return row[port.offset] if port.offset < len(row) else None
     for s, t in h.links():
-        kind = h.port_kind(s)
-        label = str(kind.ty) if isinstance(kind, T.ValueKind) else ""
+        ty = value_type(s)
+        if ty is None and value_type(t) is not None and not isinstance(h[s.node].op, (O.Const, O.FuncDefn, O.FuncDecl)):
+            ty = value_type(t)
+        label = str(ty) if ty is not None and not (isinstance(h[t.node].op, (O.Call, O.LoadConst, O.LoadFunc)) and value_type(t) is None) else ""
         want[((s.node.idx, s.offset), (t.node.idx, t.offset), label)] += 1
     got = Counter()
     for (s, t, label, col), k in edges.items():
